@@ -163,7 +163,7 @@ func (x *Exec) step(st *State, ins ssa.Instruction) {
 			x.cellSeq++
 			id := x.cellSeq
 			st.cells[id] = x.zeroVal(elem)
-			f.env[t] = Val{Ty: t.Type(), Loc: &Loc{Kind: LCell, Cell: id, Elem: elem}}
+			f.env[t] = Val{Ty: t.Type(), Loc: &Loc{Kind: LCell, Cell: id, Elem: elem, Src: t}}
 		}
 	case *ssa.BinOp:
 		f.env[t] = x.binop(st, t)
@@ -300,7 +300,13 @@ func (x *Exec) step(st *State, ins ssa.Instruction) {
 			d.fnv = x.operand(st, t.Call.Value)
 		}
 		f.defers = append(f.defers, d)
-	case *ssa.Go, *ssa.Send, *ssa.Select:
+	case *ssa.Send:
+		// a channel send has no effect on the modelled state; that it does not block forever is
+		// NOT modelled (recorded as a gap of the function)
+		_ = x.operand(st, t.Chan)
+		_ = x.operand(st, t.X)
+		x.gap(x.curKey + ": channel send treated as a no-op (blocking not modelled)")
+	case *ssa.Go, *ssa.Select:
 		x.unsup("concurrency instruction %T", ins)
 	case *ssa.SliceToArrayPointer, *ssa.MultiConvert:
 		x.unsup("%T", ins)
@@ -461,7 +467,14 @@ func (x *Exec) makeIface(st *State, v Val, from types.Type, to types.Type) Val {
 	var payload string
 	switch from.Underlying().(type) {
 	case *types.Pointer, *types.Map, *types.Chan:
-		payload = x.termOf(st, v)
+		if v.Loc != nil && v.Loc.Kind == LCell {
+			// the address of a local variable: not modelled as a value (opaque, non-nil); the
+			// library models reach the variable through Inner.Loc
+			payload = x.freshConst(st, "celladdr", "Int")
+			st.assume("(> " + payload + " 0)")
+		} else {
+			payload = x.termOf(st, v)
+		}
 	case *types.Signature:
 		payload = x.termOf(st, v)
 	default:
